@@ -145,7 +145,7 @@ where
     Ok(CaseInfo::new(N::USIZE + M::USIZE > 0, "concat"))
 }
 
-fn remove<E: Elem, N>(swap: bool, idx: usize) -> Result<CaseInfo, String>
+fn remove<E: Elem, N>(swap: bool, unchecked: bool, idx: usize) -> Result<CaseInfo, String>
 where
     N: ArrayLength + Sub<B1>,
     Sub1<N>: ArrayLength,
@@ -153,7 +153,13 @@ where
     let n = N::USIZE;
     let a = mk::<E, N>();
     let mut model = ids_of(&a);
-    let r = catch(move || if swap { a.swap_remove(idx) } else { a.remove(idx) });
+    let r = catch(move || match (swap, unchecked) {
+        (true, false) => a.swap_remove(idx),
+        (false, false) => a.remove(idx),
+        // the unsafe forms with a valid index (their documented domain) must behave like the checked ones
+        (true, true) => unsafe { a.swap_remove_unchecked(idx) },
+        (false, true) => unsafe { a.remove_unchecked(idx) },
+    });
     if idx >= n {
         return match r {
             // the property says "panic"; the wording of the message is not part of it
@@ -217,7 +223,10 @@ macro_rules! m_remove {
         let idxs: Vec<usize> = if n <= 8 { let mut v: Vec<usize> = (0..=n + 1).collect(); v.push(usize::MAX); v } else { let mut v = vec![0, 1, n / 2, n - 2, n - 1, n, n + 1, usize::MAX]; v.sort(); v.dedup(); v };
         for swap in [false, true] {
             for &i in &idxs {
-                $ctx.case(&format!("C09;{};N={n};i={i};E={}", if swap { "swap_remove" } else { "remove" }, <$E as Elem>::NAME), || remove::<$E, $n>(swap, i));
+                $ctx.case(&format!("C09;{};N={n};i={i};E={}", if swap { "swap_remove" } else { "remove" }, <$E as Elem>::NAME), || remove::<$E, $n>(swap, false, i));
+                if i < n {
+                    $ctx.case(&format!("C09;{}_unchecked;N={n};i={i};E={}", if swap { "swap_remove" } else { "remove" }, <$E as Elem>::NAME), || remove::<$E, $n>(swap, true, i));
+                }
             }
         }
     };
